@@ -152,6 +152,12 @@ func init() {
 			}
 			check(t, func(rt *rapid.T) {
 				defer env.Release()
+				if rapid.IntRange(0, 9).Draw(rt, "reanalysis") == 0 {
+					if rc := drawReanalysis(rt, rec, env); rc != nil {
+						checkReanalysis(rt, rec, rc)
+					}
+					return
+				}
 				p, pc := gen.DrawProgram(rt, env, gen.DrawOpts{
 					MinMuts:  1,
 					MaxMuts:  3,
@@ -162,6 +168,11 @@ func init() {
 		},
 		Replay: func(t *testing.T, rec *core.Recorder, raw json.RawMessage) {
 			env, all := sharedEnv(t)
+			var rc reanalysisCase
+			if err := json.Unmarshal(raw, &rc); err == nil && rc.Kind == "reanalysis" {
+				checkReanalysis(t, rec, &rc)
+				return
+			}
 			var pc gen.ProgCase
 			if err := json.Unmarshal(raw, &pc); err != nil {
 				t.Fatal(err)
@@ -173,6 +184,101 @@ func init() {
 			checkC20(t, rec, all, p, &pc)
 		},
 	})
+}
+
+// reanalysisCase: a file is analysed, edited, and analysed again in the same process (a new
+// session: fresh file set, fresh type information, fresh checkers, same file name) — what an
+// editor integration or a long-running lint server does. In the first version the calls go to the
+// real standard package; in the second the import is swapped for a user package with the same name
+// and API, written with the same length, so that every call sits at the same position as before.
+// Nothing remembered from the first session may make the second one report the namesake.
+var c20CaseOverride any
+
+type reanalysisCase struct {
+	Kind   string        `json:"kind"`
+	Pkg    string        `json:"std_package"`
+	First  []core.Source `json:"first"`
+	Second []core.Source `json:"second"`
+}
+
+func drawReanalysis(rt *rapid.T, rec *core.Recorder, env *gen.Env) *reanalysisCase {
+	srcs := gen.DrawKernelFile(rt)
+	if len(srcs) != 1 {
+		return nil
+	}
+	text := srcs[0].Text
+	var cands []string
+	for _, std := range gen.FakeablePkgs {
+		if gen.HasFake(std) && strings.Contains(text, "\t\""+std+"\"\n") {
+			cands = append(cands, std)
+		}
+	}
+	if len(cands) == 0 {
+		return nil
+	}
+	std := pickT(rt, "reanalysisPkg", cands)
+	line := "\t\"" + std + "\"\n"
+	pad := "/*" + strings.Repeat("v", len(gen.FakePath(std))-len(std)-4) + "*/"
+	rc := &reanalysisCase{Kind: "reanalysis", Pkg: std,
+		First:  []core.Source{{Name: srcs[0].Name, Text: strings.Replace(text, line, "\t"+pad+"\""+std+"\"\n", 1)}},
+		Second: []core.Source{{Name: srcs[0].Name, Text: strings.Replace(text, line, "\t\""+gen.FakePath(std)+"\"\n", 1)}},
+	}
+	if len(rc.First[0].Text) != len(rc.Second[0].Text) {
+		return nil
+	}
+	return rc
+}
+
+func checkReanalysis(t core.TB, rec *core.Recorder, rc *reanalysisCase) {
+	infos := core.HandWritten()
+	// session 1
+	env1 := gen.NewEnv()
+	p1 := env1.Load(rc.First)
+	if !p1.OK() {
+		env1.Release()
+		rec.Reject()
+		rec.Count("rejected:reanalysis-first")
+		return
+	}
+	set1, err := core.NewSet(env1.Fset, infos)
+	if err != nil {
+		env1.Release()
+		rec.Inconclusive("C20 reanalysis: " + err.Error())
+		return
+	}
+	n1 := 0
+	for i := range p1.Files {
+		ds, _ := set1.RunAll(p1, i)
+		for _, d := range ds {
+			n1 += len(d)
+		}
+	}
+	env1.Release()
+	// session 2: same file name, same offsets, the namesake package
+	env2 := gen.NewEnv()
+	defer env2.Release()
+	p2 := env2.Load(rc.Second)
+	if !p2.OK() {
+		rec.Reject()
+		rec.Count("rejected:reanalysis-second")
+		return
+	}
+	if p1.Names[0] != p2.Names[0] {
+		rec.Inconclusive("C20 reanalysis: the two sessions did not get the same file name: " + p1.Names[0] + " vs " + p2.Names[0])
+		return
+	}
+	set2, err := core.NewSet(env2.Fset, infos)
+	if err != nil {
+		rec.Inconclusive("C20 reanalysis: " + err.Error())
+		return
+	}
+	rec.Count("reanalysis")
+	if n1 > 0 {
+		rec.Nontrivial("reanalysis", rc.Pkg, rc.First[0].Text)
+	}
+	c20CaseOverride = rc
+	defer func() { c20CaseOverride = nil }()
+	checkC20(t, rec, set2, p2, &gen.ProgCase{Origin: "reanalysis:" + rc.Pkg, Muts: []string{"fake-import"}, Files: rc.Second})
 }
 
 type apiRef struct {
@@ -331,8 +437,12 @@ func checkC20(t core.TB, rec *core.Recorder, all *core.Set, p *core.Program, pc 
 				}
 				if !anyReal {
 					r := refs[0]
+					var cs any = pc
+					if c20CaseOverride != nil {
+						cs = c20CaseOverride // the whole history, not only the last program
+					}
 					rec.Violation(t, "C20|"+name+"|"+r.subj+"|"+r.resolved,
-						fmt.Sprintf("%s\nis about %s, but the flagged reference resolves to: %s", d.String(), r.subj, r.resolved), pc)
+						fmt.Sprintf("%s\nis about %s, but the flagged reference resolves to: %s", d.String(), r.subj, r.resolved), cs)
 				}
 			}
 		}
